@@ -20,20 +20,21 @@ import (
 
 // retCase: one handler returning values of one supported shape, somewhere in a chain (C14).
 type retCase struct {
-	Shape   string `json:"shape"`
-	Int     int    `json:"int,omitempty"`
-	Str     core.B `json:"str,omitempty"`
-	Nil     bool   `json:"nil,omitempty"`                           // nil slice / nil pointer / nil interface instead of Str
-	Err     string `json:"err,omitempty"`                           // "" nil | new | custom | wrapped | sentinel:<i> | wrapped-sentinel:<i> (well-known error values of the standard library: what is written is Error(), whatever the error is)
-	ErrMsg  core.B `json:"err_msg,omitempty"`                       //
-	Pos     int    `json:"pos"`                                     // number of silent handlers before it
-	Reflect bool   `json:"reflective"`                              // add an injected parameter so that the built-in fast path cannot apply
-	Custom  string `json:"custom,omitempty"`                        // "" | app | request | request-late : a custom ReturnHandler is registered there (late = after the silent handlers ran)
-	In      string `json:"in,omitempty"`                            // parameters of the handler: "" none | req | rw,req | ctx   (none of these changes what a return value means)
-	FailW   bool   `json:"underlying_write_fails,omitempty"`        // the client is gone: every Write on the underlying writer fails. Nothing of this request may reach a later one
-	PreRet  bool   `json:"silent_handlers_return_values,omitempty"` // the preceding silent handlers return "" / nil error / nil []byte
-	Method  string `json:"method,omitempty"`
-	Cancel  bool   `json:"request_context_cancelled_by_the_returning_handler,omitempty"` // the returning handler cancels the request context before it returns: what it returns is still the response (the chain stops afterwards either way, C03)
+	Shape    string `json:"shape"`
+	Int      int    `json:"int,omitempty"`
+	Str      core.B `json:"str,omitempty"`
+	Nil      bool   `json:"nil,omitempty"`                           // nil slice / nil pointer / nil interface instead of Str
+	Err      string `json:"err,omitempty"`                           // "" nil | new | custom | wrapped | sentinel:<i> | wrapped-sentinel:<i> (well-known error values of the standard library: what is written is Error(), whatever the error is)
+	ErrMsg   core.B `json:"err_msg,omitempty"`                       //
+	Pos      int    `json:"pos"`                                     // number of silent handlers before it
+	Reflect  bool   `json:"reflective"`                              // add an injected parameter so that the built-in fast path cannot apply
+	Custom   string `json:"custom,omitempty"`                        // "" | app | request | request-late : a custom ReturnHandler is registered there (late = after the silent handlers ran)
+	In       string `json:"in,omitempty"`                            // parameters of the handler: "" none | req | rw,req | ctx   (none of these changes what a return value means)
+	FailW    bool   `json:"underlying_write_fails,omitempty"`        // the client is gone: every Write on the underlying writer fails. Nothing of this request may reach a later one
+	PreRet   bool   `json:"silent_handlers_return_values,omitempty"` // the preceding silent handlers return "" / nil error / nil []byte
+	Method   string `json:"method,omitempty"`
+	Cancel   bool   `json:"request_context_cancelled_by_the_returning_handler,omitempty"` // the returning handler cancels the request context before it returns: what it returns is still the response (the chain stops afterwards either way, C03)
+	PreWrite bool   `json:"handler_writes_before_returning,omitempty"`                    // the returning handler has already written "head|" (status 200) itself: what it returns is still rendered, after that
 }
 
 func init() {
@@ -59,7 +60,7 @@ type c14Err struct{ msg string }
 
 func (e *c14Err) Error() string { return e.msg }
 
-var retShapes = []string{"string", "bytes", "error", "int,string", "int,bytes", "int,error", "string,error", "bytes,error", "*string", "named", "iface", "*bytes", "namedbytes", "int,namedbytes", "valerr", "int,valerr", "string,valerr"}
+var retShapes = []string{"string", "bytes", "error", "int,string", "int,bytes", "int,error", "string,error", "bytes,error", "*string", "named", "iface", "*bytes", "namedbytes", "int,namedbytes", "valerr", "int,valerr", "string,valerr", "iface-err", "int,iface-err", "int,iface", "int,string,int", "bool", "struct"}
 
 var (
 	tString = reflect.TypeOf("")
@@ -167,6 +168,18 @@ func (c *retCase) outs() ([]reflect.Type, []reflect.Value) {
 		return []reflect.Type{tPStr}, []reflect.Value{c.strish(tPStr)}
 	case "*bytes":
 		return []reflect.Type{tPBytes}, []reflect.Value{c.strish(tPBytes)}
+	case "iface-err": // a result slot declared interface{} that holds a non-nil error: still a non-nil error
+		return []reflect.Type{tIface}, []reflect.Value{reflect.ValueOf(errors.New("ie:" + string(c.Str))).Convert(tIface)}
+	case "int,iface-err":
+		return []reflect.Type{tInt, tIface}, []reflect.Value{reflect.ValueOf(c.Int), reflect.ValueOf(errors.New("ie:" + string(c.Str))).Convert(tIface)}
+	case "int,iface":
+		return []reflect.Type{tInt, tIface}, []reflect.Value{reflect.ValueOf(c.Int), c.strish(tIface)}
+	case "int,string,int": // outside the table: only a custom ReturnHandler gives it a meaning
+		return []reflect.Type{tInt, tString, tInt}, []reflect.Value{reflect.ValueOf(c.Int), c.strish(tString), reflect.ValueOf(7)}
+	case "bool":
+		return []reflect.Type{reflect.TypeOf(true)}, []reflect.Value{reflect.ValueOf(len(c.Str)%2 == 0)}
+	case "struct":
+		return []reflect.Type{reflect.TypeOf(c14ValErr{}.Code), reflect.TypeOf(struct{ A string }{})}, []reflect.Value{reflect.ValueOf(3), reflect.ValueOf(struct{ A string }{string(c.Str)})}
 	case "iface":
 		return []reflect.Type{tIface}, []reflect.Value{c.strish(tIface)}
 	case "error":
@@ -207,6 +220,14 @@ func retTable(c *retCase) (int, string, bool) {
 	switch c.Shape {
 	case "string", "named", "bytes", "*string", "*bytes", "iface", "namedbytes":
 		return one()
+	case "iface-err":
+		return 500, "ie:" + string(c.Str), true
+	case "int,iface-err":
+		return c.Int, "ie:" + string(c.Str), true
+	case "int,iface":
+		return c.Int, body, true
+	case "int,string,int", "bool", "struct":
+		return 0, "", false // never consulted: these shapes are only generated together with a custom ReturnHandler
 	case "valerr", "string,valerr": // a non-nil error (also when it is the zero value of its concrete type)
 		return 500, fmt.Sprintf("valerr-%d", len(c.Str)%2), true
 	case "int,valerr":
@@ -232,10 +253,15 @@ func retTable(c *retCase) (int, string, bool) {
 	panic("unknown shape")
 }
 
+// outOfTable: result lists the statement's table says nothing about; a custom ReturnHandler must still get them.
+func (c *retCase) outOfTable() bool {
+	return c.Shape == "int,string,int" || c.Shape == "bool" || c.Shape == "struct"
+}
+
 // isNil: the Nil flag only means something for shapes with a nil-able string-ish value.
 func (c *retCase) isNil() bool {
 	switch c.Shape {
-	case "bytes", "*string", "*bytes", "iface", "int,bytes", "bytes,error", "namedbytes", "int,namedbytes":
+	case "bytes", "*string", "*bytes", "iface", "int,bytes", "bytes,error", "namedbytes", "int,namedbytes", "int,iface":
 		return c.Nil
 	}
 	return false
@@ -283,7 +309,7 @@ var retStrings = []string{"", "", "x", "hello", "\x00\xff", "<b>&", "500", "a\nb
 
 func genRetCase(rng *rand.Rand) *retCase {
 	c := &retCase{Shape: retShapes[rng.Intn(len(retShapes))], Pos: rng.Intn(3), Reflect: rng.Intn(2) == 0}
-	c.Int = []int{200, 201, 204, 301, 400, 404, 418, 500, 503, 100 + rng.Intn(500)}[rng.Intn(10)]
+	c.Int = []int{200, 201, 204, 301, 400, 404, 418, 500, 503, 100 + rng.Intn(500), 599, 600, 700, 999, 600 + rng.Intn(400)}[rng.Intn(15)]
 	c.Str = core.B(retStrings[rng.Intn(len(retStrings))])
 	if rng.Intn(5) == 0 {
 		c.Nil = true
@@ -297,11 +323,18 @@ func genRetCase(rng *rand.Rand) *retCase {
 		}
 	}
 	c.Cancel = rng.Intn(10) == 0
+	c.PreWrite = rng.Intn(12) == 0
 	c.Method = []string{"GET", "GET", "POST", "HEAD", "HEAD"}[rng.Intn(5)]
 	c.FailW = rng.Intn(25) == 0
 	c.In = []string{"", "", "req", "rw,req", "ctx"}[rng.Intn(5)]
 	if rng.Intn(8) == 0 {
 		c.Custom = []string{"app", "request", "request-late"}[rng.Intn(3)]
+	}
+	if c.outOfTable() && c.Custom == "" {
+		c.Custom = []string{"app", "request", "request-late"}[rng.Intn(3)]
+	}
+	if c.Custom != "" {
+		c.PreWrite = false
 	}
 	if c.Custom != "app" && c.Custom != "request" && rng.Intn(2) == 0 {
 		c.PreRet = true
@@ -332,6 +365,7 @@ func judgeRet(w *core.W, c *retCase) {
 		in = []reflect.Type{tCtx}
 	}
 	ran := 0
+	var preW flamego.ResponseWriter
 	reqCtx, cancelReq := gocontext.WithCancel(gocontext.Background())
 	defer cancelReq()
 	h := reflect.MakeFunc(reflect.FuncOf(in, outT, false), func([]reflect.Value) []reflect.Value {
@@ -339,10 +373,16 @@ func judgeRet(w *core.W, c *retCase) {
 		if c.Cancel {
 			cancelReq()
 		}
+		if c.PreWrite {
+			_, _ = preW.Write([]byte("head|"))
+		}
 		return outV
 	}).Interface()
 
 	f := flamego.NewWithLogger(io.Discard)
+	if c.PreWrite {
+		f.Use(func(ctx flamego.Context) { preW = ctx.ResponseWriter() })
+	}
 	customCalls := 0
 	var customVals []reflect.Value
 	custom := flamego.ReturnHandler(func(_ flamego.Context, vals []reflect.Value) {
@@ -420,6 +460,15 @@ func judgeRet(w *core.W, c *retCase) {
 	if c.sentinel() != nil {
 		w.Count("standard-library-error-value-returned")
 	}
+	if c.PreWrite {
+		w.Count("handler-wrote-before-returning")
+	}
+	if c.outOfTable() {
+		w.Count("out-of-table-shape-with-custom-return-handler")
+	}
+	if c.Int >= 600 {
+		w.Count("status>=600")
+	}
 	w.NonTrivial(core.Hash64(c.Shape, cls, path, c.Custom, fmt.Sprint(c.Pos, c.PreRet, c.Method), fmt.Sprint(c.Int), string(c.Str), c.Err, string(c.ErrMsg)), func() interface{} {
 		return map[string]interface{}{"case": c, "status": spy.status, "body": core.B(spy.body), "next_handler_ran": marker == 1}
 	})
@@ -458,6 +507,13 @@ func retVerdict(c *retCase, pan interface{}, ran, pre, status int, body string, 
 		return ""
 	}
 	ws, wb, wrote := retTable(c)
+	if c.PreWrite {
+		// the status line (200) and "head|" are out already; the returned value is rendered behind them
+		if !wrote {
+			wb = ""
+		}
+		ws, wb, wrote = 200, "head|"+wb, true
+	}
 	if c.FailW {
 		wb = "" // nothing can be delivered; the status line still is what the table says
 	}
@@ -513,7 +569,7 @@ func runC14(r *core.Run) {
 		judgeRet(w, c)
 	})
 	// every status code 100..599 through every (int, …) shape, fast path and reflective
-	r.Parallel("status-sweep", 500, func(w *core.W, rng *rand.Rand, i int) {
+	r.Parallel("status-sweep", 900, func(w *core.W, rng *rand.Rand, i int) {
 		for _, shape := range []string{"int,string", "int,bytes", "int,error"} {
 			for _, refl := range []bool{false, true} {
 				c := &retCase{Shape: shape, Int: 100 + i, Str: core.B([]string{"", "b"}[i%2]), Reflect: refl, Pos: i % 3, Method: []string{"GET", "HEAD", "POST"}[i%3]}
@@ -526,7 +582,7 @@ func runC14(r *core.Run) {
 			}
 		}
 	})
-	r.GateCounter("status-sweep", 3000)
+	r.GateCounter("status-sweep", 5000)
 	for _, s := range retShapes {
 		if s == "*string" || s == "*bytes" {
 			r.GateCounter("class:"+s+"/pointer", 50)
@@ -534,7 +590,7 @@ func runC14(r *core.Run) {
 		}
 		r.GateCounter("class:"+s+"/non-empty", 50)
 	}
-	for _, k := range []string{"class:string/zero", "class:named/zero", "class:bytes/nil", "class:*string/nil", "class:*bytes/nil", "class:iface/nil", "class:error/error", "class:error/zero", "class:int,error/error", "class:string,error/error", "class:bytes,error/error", "class:int,string/zero", "class:int,bytes/nil", "path:fast", "path:reflective", "custom:app", "custom:request", "custom:request-late", "silent-handlers-returned-values", "method:HEAD", "method:GET", "request-cancelled-by-returning-handler", "standard-library-error-value-returned"} {
+	for _, k := range []string{"class:string/zero", "class:named/zero", "class:bytes/nil", "class:*string/nil", "class:*bytes/nil", "class:iface/nil", "class:error/error", "class:error/zero", "class:int,error/error", "class:string,error/error", "class:bytes,error/error", "class:int,string/zero", "class:int,bytes/nil", "path:fast", "path:reflective", "custom:app", "custom:request", "custom:request-late", "silent-handlers-returned-values", "method:HEAD", "method:GET", "request-cancelled-by-returning-handler", "standard-library-error-value-returned", "handler-wrote-before-returning", "out-of-table-shape-with-custom-return-handler", "status>=600"} {
 		r.GateCounter(k, 50)
 	}
 	r.Gate("distinct_nontrivial", r.NonTrivialCount(), 2000)
